@@ -227,7 +227,7 @@ impl Property for C03 {
     fn budget(tier: Tier) -> u64 {
         match tier {
             Tier::Quick => 6_000,
-            Tier::Thorough => 400_000,
+            Tier::Thorough => 200_000,
         }
     }
 
